@@ -78,10 +78,23 @@ def main(argv):
     ctx = Ctx(pid, tier, seed, drv)
     try:
         mod.run(ctx)
-    except Exception:
-        traceback.print_exc()
-        print("harness error (exit 2)")
-        return 2
+    except Exception as e:
+        tb = traceback.extract_tb(e.__traceback__)
+        inner = tb[-1].filename if tb else ""
+        if "/pynapple/" in inner and "/harness/" not in inner:
+            # the IMPLEMENTATION raised on an input the harness generates as valid and does not guard: that is a finding about
+            # the code (a public call failing), not a harness fault; it is reported with the traceback as the replay
+            traceback.print_exc()
+            last_harness = [f for f in tb if "/harness/" in f.filename][-1:]
+            ctx.fail("oracle", "public call raised %s: %s" % (type(e).__name__, str(e)[:200]),
+                     dict(level="uncaught", where="%s:%s" % (tb[-1].filename, tb[-1].lineno),
+                          harness_line="%s:%s %s" % (last_harness[0].filename, last_harness[0].lineno, last_harness[0].line) if last_harness else "",
+                          cases_before=ctx.evaluations),
+                     impl="".join(traceback.format_exception(type(e), e, e.__traceback__))[-1500:])
+        else:
+            traceback.print_exc()
+            print("harness error (exit 2)")
+            return 2
     oracle_f = [f for f in ctx.failures if f["kind"] == "oracle"]
     corr_f = [f for f in ctx.failures if f["kind"] == "corr"]
     # leanchecker in thorough
